@@ -140,8 +140,12 @@ type OfflineShape struct {
 	// 1 = random offline signature, 2 = all-zero offline signature,
 	// 3 = signed by another identity's key (ForgeSeed), i.e. a block
 	// transplanted from that identity.
-	Forge     int    `json:"forge,omitempty"`
-	ForgeSeed uint64 `json:"forge_seed,omitempty"`
+	// 4 = the identity signed this transient key for the expiry AltExpires;
+	// the holder of the transient key wrote another expiry into the block
+	// (the delegation stretched by the delegate).
+	Forge      int    `json:"forge,omitempty"`
+	ForgeSeed  uint64 `json:"forge_seed,omitempty"`
+	AltExpires uint64 `json:"alt_expires,omitempty"`
 }
 
 func (s *Script) Clone() *Script {
